@@ -26,7 +26,7 @@ for sid in ids:
         repo = "/repo"
         subprocess.run(["git", "-C", repo, "apply", patch], check=True)
     else:
-        repo = "/tmp/wt_seed_slot%s" % os.environ.get("VERIF_SEED_SLOT", "0")   # fixed path per slot: lets the Go build cache be reused
+        repo = "/tmp/wt_seed_slot%s" % os.environ.get("VERIF_SEED_SLOT", "p%d" % os.getpid())   # fixed path per slot: lets the Go build cache be reused
         subprocess.run(["git", "-C", "/repo", "worktree", "remove", "--force", repo], stdout=subprocess.DEVNULL, stderr=subprocess.DEVNULL)
         subprocess.run(["git", "-C", "/repo", "worktree", "add", "--detach", repo, "HEAD"], check=True, stdout=subprocess.DEVNULL, stderr=subprocess.DEVNULL)
         subprocess.run(["git", "-C", repo, "apply", patch], check=True)
